@@ -60,7 +60,8 @@ def tlc_stream(ctx, module, cfg, workers=6, timeout=900, heap="4g"):
         if f.endswith(".tla"):
             shutil.copy(os.path.join(vlib.SPECS, f), d)
     shutil.copy(os.path.join(vlib.SPECS, cfg), os.path.join(d, "run.cfg"))
-    cmd = ["java", "-XX:+UseParallelGC", "-Xss512m", "-Xmx" + heap, "-cp", vlib.TLA_JAR, "tlc2.TLC",
+    os.makedirs(os.path.join(d, "jtmp"), exist_ok=True)
+    cmd = ["java", "-Djava.io.tmpdir=" + os.path.join(d, "jtmp"), "-XX:+UseParallelGC", "-Xss512m", "-Xmx" + heap, "-cp", vlib.TLA_JAR, "tlc2.TLC",
            "-metadir", os.path.join(d, "meta"), "-workers", str(workers), "-config", "run.cfg", "-deadlock",
            module + ".tla"]
     outp = os.path.join(d, "tlc.out")
